@@ -32,7 +32,7 @@ SPEC = {
         "valid_form_b (decidable form used on the implementation's outputs) is compared with the model on every generated string, not proved equivalent to valid_form",
     ],
     "assumptions": [
-        "the CustomPeersFile loader (parseLocalPeerList + addPeers, which ignores Max) and the remote peer list download are not modelled; cache files hold valid UTF-8 and no two member names that clean to the same address (map-order dependent)",
+        "the HTTP download of the remote peer list is not exercised (its consumer parseRemotePeerList + AddPeers is); cache files hold valid UTF-8 and no two member names that clean to the same address (map-order dependent)",
     ],
 }
 
